@@ -106,6 +106,20 @@ impl PartialEq for Duration {
     #[verifier::external_body]
     fn eq(&self, o: &Duration) -> (r: bool) ensures r == (*self == *o) { unimplemented!() }
 }
+/// ordering of durations: some total order (only equality is ever relied upon)
+pub uninterp spec fn dur_lt(a: Duration, b: Duration) -> bool;
+impl PartialOrd for Duration {
+    #[verifier::external_body]
+    fn partial_cmp(&self, o: &Duration) -> (r: Option<std::cmp::Ordering>) { unimplemented!() }
+    #[verifier::external_body]
+    fn lt(&self, o: &Duration) -> (r: bool) ensures r == dur_lt(*self, *o) { unimplemented!() }
+    #[verifier::external_body]
+    fn le(&self, o: &Duration) -> (r: bool) ensures r == (dur_lt(*self, *o) || *self == *o) { unimplemented!() }
+    #[verifier::external_body]
+    fn gt(&self, o: &Duration) -> (r: bool) ensures r == dur_lt(*o, *self) { unimplemented!() }
+    #[verifier::external_body]
+    fn ge(&self, o: &Duration) -> (r: bool) ensures r == (dur_lt(*o, *self) || *self == *o) { unimplemented!() }
+}
 
 // ===========================================================================
 // ghost world (DESIGN §5.3)
